@@ -77,6 +77,7 @@ def run(ctx):
     exact = oracle.exact_moments(ctx, ocases, timeout=240)
     exact_by_prog = {i: e for i, e in zip(omap, exact)}
     errs, feats, labelled = {}, {}, []
+    src_cases = []
     n_goal_ok = 0
     for i, ((p, goals, tag), r) in enumerate(zip(progs, results)):
         for f in tag.split("+"):
@@ -102,6 +103,22 @@ def run(ctx):
                    "force_cyclic": False, "solver": gr["solver"], "point": {}, "sols": gr["sols"], "is_exact": gr["is_exact"],
                    "program": text, "goal": gname}
             labelled.append((lab, inst))
+            # (a') the verified end-to-end validator on the SOURCE program (rational closed forms only)
+            try:
+                if inst.get("cf") and not inst["cf"]["gens"] and "unsupported" not in r.get("flat", {}):
+                    dp = core.desugar(p)
+                    tsrc = core.infer_src_types(dp)
+                    ms, ms_c, A_c, v_c = core.system_coq(gr, inst)
+                    cf = inst["cf"]
+                    F = [[(c04.dec(b), [c04.dec(c) for c in cs]) for b, cs in f] for f in cf["general"]]
+                    sp = [[c04.dec(c) for c in row] for row in cf["specials"]]
+                    import exppoly
+                    F_c = exppoly.coq_list([exppoly.coq_epoly(f) for f in F])
+                    sp_c = exppoly.coq_list([exppoly.coq_list([exppoly.coq_elem(x) for x in row]) for row in sp])
+                    src_cases.append({"text": text, "goal": gname,
+                                      "term": f"(check_pipeline_src cm0 {P.prog_coq(dp)} {core.tenv_coq(tsrc)} {ms_c} {A_c} {v_c} {F_c} {sp_c})"})
+            except (core.NotModelled, KeyError, ValueError):
+                pass
             # (b) end to end against the reference semantics
             ctx.count({"t": text, "g": gname}, nontrivial=len(gr["monomials"]) >= 2)
             if ex is None:
@@ -131,6 +148,25 @@ def run(ctx):
                                 "reference_value": str(bad[2]), "closed_form": gr["sols"][idx], "flat_program": r.get("flat_text")},
                           f"E({gname}) of the program below: Polar's closed form gives {bad[1]} at n={bad[0]}, "
                           f"the exact expectation is {bad[2]}\n{text}")
+    # source-level end-to-end validator, evaluated by the kernel
+    sfiles = [(f"src_{j}", core.SRC_HEADER + f"Eval vm_compute in [{c['term']}].\n") for j, c in enumerate(src_cases)]
+    souts = lib.coq_run_many(ctx, sfiles, timeout=240)
+    src_stat = {"accepted": 0, "rejected": 0, "error": 0}
+    for j, c in enumerate(src_cases):
+        okc, o = souts[f"src_{j}"]
+        bl = lib.parse_bool_list(o) if okc else None
+        if bl and bl[0]:
+            src_stat["accepted"] += 1
+            ctx.coverage["obligations"] += 1
+            ctx.coverage["discharged"] += 1
+            if src_stat["accepted"] <= 2:
+                ctx.sample({"program": c["text"], "goal": c["goal"],
+                            "validator": "check_pipeline_src accepted: closed form = exact moments of the SOURCE program for all n"})
+        elif bl:
+            src_stat["rejected"] += 1   # not an alarm by itself: the bounded oracle comparison above decides
+        else:
+            src_stat["error"] += 1
+    ctx.coverage["source_level_validator"] = src_stat
     # C04 validator on every Polar-built system
     out = c04.validate_instances(ctx, labelled)
     stat = {}
